@@ -75,17 +75,21 @@ impl ArrProps {
         v
     }
 
-    /// Collect any `Props` (first value for a key wins).
+    /// Collect any `Props` (first value for a key wins). The value's type is chosen by the KEY (ids under
+    /// the id keys, i32 under a/b): no speculative casts, which would send CBMC through value-bag's
+    /// text-parsing fallbacks.
     pub fn collect<P: Props>(props: P) -> ArrProps {
         let mut out = ArrProps::EMPTY;
         let _ = props.for_each(|k, v| {
             let i = key_idx(k.get());
             if i < 6 {
                 if let Held::None = out.slot[i] {
-                    out.slot[i] = if let Some(t) = v.downcast_ref::<TraceId>() { Held::Trace(*t) }
-                        else if let Some(s) = v.downcast_ref::<SpanId>() { Held::Span(*s) }
-                        else if let Some(x) = v.by_ref().cast::<i32>() { Held::I(x) }
-                        else { Held::None };
+                    out.slot[i] = match i {
+                        K_TRACE => match v.downcast_ref::<TraceId>() { Some(t) => Held::Trace(*t), None => match v.cast::<TraceId>() { Some(t) => Held::Trace(t), None => Held::None } },
+                        K_SPAN | K_PARENT => match v.downcast_ref::<SpanId>() { Some(s) => Held::Span(*s), None => match v.cast::<SpanId>() { Some(s) => Held::Span(s), None => Held::None } },
+                        K_A | K_B => match v.cast::<i32>() { Some(x) => Held::I(x), None => Held::None },
+                        _ => Held::None,
+                    };
                 }
             }
             ControlFlow::Continue(())
@@ -177,7 +181,6 @@ impl SeenEvt {
         }
         let p = ArrProps::collect(evt.props());
         s.vals = p.view();
-        let m = evt.mdl().segments().next();
         s
     }
 }
@@ -225,4 +228,24 @@ pub fn sym_ts() -> Timestamp {
 #[cfg(kani)]
 pub fn sym_opt_ts() -> Option<Timestamp> {
     if kani::any() { Some(sym_ts()) } else { None }
+}
+
+// ---- cuts for value-bag's text fallbacks -------------------------------------------------------
+// `FromValue` for ids / kinds / levels first tries a typed downcast and only then falls back to
+// FORMATTING the value and parsing the text. CBMC cannot prune the fallback during symbolic
+// execution (the downcast is decided only in the solver), and the fallback drags in core::fmt
+// (integer/float formatting, padding), which does not finish. In harnesses where every value under an
+// id / kind key is typed, the fallback is dead code; the stubs below replace it by an assertion that it
+// is NOT reached - so a change that breaks the typed fast path is still reported.
+
+pub fn trace_hex_unreachable<D: core::fmt::Display>(_hex: D) -> Result<TraceId, emit::span::ParseIdError> {
+    panic!("text fallback of TraceId::from_value reached although the value is typed")
+}
+
+pub fn span_hex_unreachable<D: core::fmt::Display>(_hex: D) -> Result<SpanId, emit::span::ParseIdError> {
+    panic!("text fallback of SpanId::from_value reached although the value is typed")
+}
+
+pub fn parse_unreachable<'v, T: core::str::FromStr>(_v: &Value<'v>) -> Option<T> where Value<'v>: Sized {
+    panic!("text fallback Value::parse reached although the value is typed")
 }
